@@ -486,4 +486,178 @@ theorem notify_allowed_while_draining (s s' : St) (w : Who) (nf : Notif) (hnf : 
       simp only [true_iff]
       intro ⟨a, b, c⟩; exact hc ⟨a, b⟩ c
 
+/-! ## C01, continued: after the reader failed nothing is registered any more -/
+
+theorem oc_retireIn (s : St) (n : Nat) (r : Res) : (retireIn s n r).outCalls = s.outCalls :=
+  congrArg FV.outCalls (fview_retireIn s n r)
+theorem oc_foldl_retire (l : List Nat) (r : Res) (s : St) :
+    (l.foldl (fun s n => retireIn s n r) s).outCalls = s.outCalls :=
+  congrArg FV.outCalls (fview_foldl_retire l r s)
+theorem oc_foldl_cancel (l : List (Nat × Nat)) (c : Cause) (s : St) :
+    (l.foldl (fun s p => cancelReq s p.2 c) s).outCalls = s.outCalls :=
+  congrArg FV.outCalls (fview_foldl_cancel l c s)
+theorem oc_markBroken (s : St) : (markBroken s).outCalls = s.outCalls :=
+  congrArg CallView.outCalls (callView_markBroken s)
+theorem oc_setNotif (s : St) (w : Who) (f : Notif → Notif) : (setNotif s w f).outCalls = s.outCalls :=
+  congrArg FV.outCalls (fview_setNotif s w f)
+theorem oc_settle (s : St) : (settle s).outCalls = s.outCalls := congrArg FV.outCalls (fview_settle s)
+theorem readErr_settle (s : St) : (settle s).readErr = s.readErr := congrArg FV.readErr (fview_settle s)
+
+set_option maxRecDepth 8000 in
+/-- The table of registered calls grows only at a C1 that is admitted (connection not shutting down). -/
+theorem outCalls_step0 {s s' : St} {l : Label} (h : step0 s l = some s') :
+    ∀ x ∈ s'.outCalls, x ∈ s.outCalls ∨ (l = .c1 x ∧ s.shuttingDown = false) := by
+  by_cases hl : l.touchesCalls = false
+  · have hv : s'.outCalls = s.outCalls := congrArg CallView.outCalls (frame_calls s s' l h hl)
+    intro x hx; left; rw [← hv]; exact hx
+  · cases l <;> simp [Label.touchesCalls] at hl <;> simp only [step0] at h
+    all_goals (repeat' (split at h))
+    all_goals first
+      | (simp at h; done)
+      | (simp at hl; done)
+      | (injection h with h; subst h; intro x hx
+         try simp only [tail_outCalls, oc_retireIn, oc_foldl_cancel, oc_markBroken, oc_setNotif, modCall] at hx
+         first
+           | (left; exact hx)
+           | (simp at hx; done)
+           | (left; exact List.mem_of_mem_erase hx)
+           | (rename_i hsd; simp only [List.mem_append, List.mem_singleton] at hx
+              rcases hx with hx | rfl
+              · left; exact hx
+              · right; exact ⟨rfl, by simpa using hsd⟩))
+
+theorem FV.tail_readErr (v : FV) : v.tail.readErr = v.readErr := by
+  unfold FV.tail
+  cases hd : v.done <;> cases hcu : v.closerUsed <;> cases hrd : v.reading <;>
+    cases hidle : v.idle <;> cases hsd : v.shuttingDown <;> simp [hrd]
+
+theorem readErr_setNotif (s : St) (w : Who) (f : Notif → Notif) : (setNotif s w f).readErr = s.readErr :=
+  congrArg FV.readErr (fview_setNotif s w f)
+
+theorem readErr_tail (s : St) : (tail s).readErr = s.readErr := by
+  have := congrArg FV.readErr (fview_tail s)
+  rw [FV.tail_readErr] at this
+  exact this
+
+/-- `readErr` is set by the reader's exit section RX and by nothing else, and RX empties the table. -/
+theorem readErr_step0 {s s' : St} {l : Label} (h : step0 s l = some s') (hr : s'.readErr = true) :
+    s.readErr = true ∨ (l = .rx ∧ s'.outCalls = []) := by
+  by_cases hb : l.breaks = false
+  · left; rw [← (flags_only_by s s' l h hb).2.1]; exact hr
+  · cases l <;> simp [Label.breaks] at hb <;> simp only [step0] at h
+    case cl1 =>
+      split at h
+      · cases h
+      · cases h; left; rw [readErr_tail] at hr; exact hr
+    case rx =>
+      split at h
+      · cases h
+      · cases h; right; exact ⟨rfl, by simp [tail_outCalls, oc_foldl_cancel]⟩
+    case w2 w =>
+      left
+      have hm : (markBroken s).readErr = s.readErr := by
+        unfold markBroken; split
+        · rfl
+        · exact (foldl_cancel_flags s.byID .write { s with writeErr := true }).2.1
+      repeat' (split at h)
+      all_goals first
+        | (cases h; done)
+        | (cases h
+           have h2 : ∀ (X : St) r, (toP2 X r).readErr = X.readErr := fun _ _ => rfl
+           have h3 : ∀ (X : St) n (f : Call → Call), (modCall X n f).readErr = X.readErr := fun _ _ _ => rfl
+           simp only [readErr_tail, readErr_setNotif, h2, h3] at hr
+           exact hm ▸ hr)
+
+/-- `readErr` is never cleared, and RX sets it. -/
+theorem readErr_mono_step0 {s s' : St} {l : Label} (h : step0 s l = some s') (hr : s.readErr = true ∨ l = .rx) :
+    s'.readErr = true := by
+  by_cases hb : l.breaks = false
+  · rw [(flags_only_by s s' l h hb).2.1]
+    rcases hr with hr | rfl
+    · exact hr
+    · simp [Label.breaks] at hb
+  · cases l <;> simp [Label.breaks] at hb <;> simp only [step0] at h
+    case cl1 =>
+      split at h
+      · cases h
+      · cases h; rw [readErr_tail]; rcases hr with hr | hr
+        · exact hr
+        · cases hr
+    case rx =>
+      split at h
+      · cases h
+      · cases h
+        rw [readErr_tail, (foldl_cancel_flags _ _ _).2.1]
+        show (List.foldl (fun s n => retireIn s n (Res.err Err.read)) _ s.outCalls).readErr = true
+        have := congrArg FV.readErr (fview_foldl_retire s.outCalls (.err .read)
+          { s with reader := .gone, reading := false, readErr := true })
+        exact this
+    case w2 w =>
+      have hs : s.readErr = true := by
+        rcases hr with hr | hr
+        · exact hr
+        · cases hr
+      have hm : (markBroken s).readErr = s.readErr := by
+        unfold markBroken; split
+        · rfl
+        · exact (foldl_cancel_flags s.byID .write { s with writeErr := true }).2.1
+      repeat' (split at h)
+      all_goals first
+        | (cases h; done)
+        | (cases h
+           have h2 : ∀ (X : St) r, (toP2 X r).readErr = X.readErr := fun _ _ => rfl
+           have h3 : ∀ (X : St) n (f : Call → Call), (modCall X n f).readErr = X.readErr := fun _ _ _ => rfl
+           simp only [readErr_tail, readErr_setNotif, h2, h3]
+           rw [hm]; exact hs)
+
+/-- The invariant behind `read_failure_leaves_no_registered_call`, one step. -/
+theorem rxInv_step {s s' : St} {l : Label} (h : step s l = some s') (i : s.readErr = true → s.outCalls = []) :
+    s'.readErr = true → s'.outCalls = [] := by
+  simp only [step, Option.map_eq_some_iff] at h
+  obtain ⟨s0, h0, rfl⟩ := h
+  rw [readErr_settle, oc_settle]
+  intro hr
+  rcases readErr_step0 h0 hr with hs | ⟨_, ho⟩
+  · rw [List.eq_nil_iff_forall_not_mem]
+    intro x hx
+    rcases outCalls_step0 h0 x hx with hx' | ⟨_, hsd⟩
+    · rw [i hs] at hx'; cases hx'
+    · simp [St.shuttingDown, hs] at hsd
+  · exact ho
+
+/-- **read_failure_leaves_no_registered_call.** Once the reader has failed (its exit section RX ran:
+`readErr` is set) no outgoing call is registered, in any reachable state: RX completes every pending
+call and empties the table, and every call started afterwards is refused at C1 (the connection is
+shutting down) — a call started after the connection broke fails at once, nothing is left waiting
+for a response that can never be read. -/
+theorem read_failure_leaves_no_registered_call (ls : List Label) (s : St) (h : run {} ls = some s)
+    (hr : s.readErr = true) : s.outCalls = [] := by
+  have key : ∀ (ls : List Label) (s0 s : St), (s0.readErr = true → s0.outCalls = []) → run s0 ls = some s →
+      (s.readErr = true → s.outCalls = []) := by
+    intro ls
+    induction ls with
+    | nil => intro s0 s i h; simp [run] at h; subst h; exact i
+    | cons l ls ih =>
+      intro s0 s i h
+      simp only [run] at h
+      cases hs : step s0 l with
+      | none => simp [hs] at h
+      | some s1 => simp only [hs] at h; exact ih s1 s (rxInv_step hs i) h
+  exact key ls {} s (fun h => by simp at h) h hr
+
+/-- **write_failure_admits_no_new_call.** While the connection is shutting down (Close was called, the
+reader failed or a transport write failed) the registration point C1 never adds to the table of
+registered calls. -/
+theorem write_failure_admits_no_new_call (s s' : St) (n : Nat) (h : step s (.c1 n) = some s')
+    (hsd : s.shuttingDown = true) : s'.outCalls = s.outCalls := by
+  simp only [step, Option.map_eq_some_iff] at h
+  obtain ⟨s0, h0, rfl⟩ := h
+  rw [oc_settle]
+  simp only [step0] at h0
+  repeat' (split at h0)
+  all_goals first
+    | (cases h0; done)
+    | (cases h0; simp [oc_retireIn, modCall, tail_outCalls]; done)
+    | (exfalso; simp_all; done)
+
 end Conn
